@@ -143,7 +143,7 @@ def coq_msg_op(op, idx=0):
     if t == "R":
         return "RL (MRecover %s %s)" % (coq_bytes(f[1]), f[2])
     return {"S": "RL MPersistSwap", "B": "RL MPersistBatch", "C": "RL MPersistConfirm", "T": "RL MPersistTick",
-            "K": "RL MKill", "DUMP": "RDump", "PEND": "RPend"}[t]
+            "K": "RL MKill", "X": "RL MClose", "DUMP": "RDump", "PEND": "RPend"}[t]
 
 
 def coq_srv_op(op):
@@ -335,6 +335,7 @@ def judge_msg(c):
     order     : R:q:0 lists ids in increasing order when all of q's ids have the same decimal length (< 2^63)
     phantom   : everything R:q returns was Added/Updated for q with that content
     deleted   : a copy whose Del was requested before a persist that completed, and that was not added again, is not in the engine
+    confirmed : every add with a confirm tag that a completed persist took in its snapshot is relayed by it
     length    : GetQueueLength(q) = number of q's messages in the engine (judged right after a DUMP)
     from      : IterateByQueueFromMsgID(q, id) from a stored id lists that id first (judged right after a DUMP)
     not-early : a relay of key k is preceded by a completed batch that Sets k, or k was Added and Del-requested before the
@@ -343,10 +344,11 @@ def judge_msg(c):
     fails = []
     names = msg_case_names(c)
     first_add, written, del_req, purged_after, relayed, set_done = {}, {}, set(), set(), {}, set()
-    pending_w, inflight_w, purged_gone, f41 = set(), set(), set(), set()
+    pending_w, inflight_w, purged_gone = set(), set(), set()
     del_pending, del_flushed, swapped_dels = set(), set(), set()
     add_count, first_is_add = {}, {}
     pending_a, pending_d, settled_ok = set(), set(), set()
+    owed, owed_fly = {}, {}   # adds with a confirm tag waiting for their persist: (q, id) -> key hex
     fresh_dump = None     # engine keys of the last DUMP if nothing has changed the store since
     bunt = c.engine == "bunt"
 
@@ -358,11 +360,18 @@ def judge_msg(c):
             tr.append("F23-buntdb-stubs")
         return tr
 
+    in_window = False     # between S and its C (or a kill): persist holds flushLock, a PurgeQueue cannot happen in here
     for i, (op, out) in enumerate(zip(c.ops, c.outs)):
         f = op.split(":")
         t = f[0]
         atoms = atoms_of_out(out)
-        if t in ("A", "U", "D", "P", "T", "S", "B", "C", "K") or out == "PANIC":
+        if t == "P" and in_window:
+            continue
+        if t == "S":
+            in_window = True
+        elif t in ("C", "K", "X") or out == "PANIC":
+            in_window = False
+        if t in ("A", "U", "D", "P", "T", "S", "B", "C", "K", "X") or out == "PANIC":
             fresh_dump = None
         if t in ("A", "U"):
             q, mid, data = unhex(f[4]), int(f[1]), int(f[2])
@@ -374,6 +383,10 @@ def judge_msg(c):
             pending_w.add((q, mid))
             if t == "A":
                 pending_a.add((q, mid))
+                if c.confirm == "1" and f[3] != "-" and int(f[3]) > 0:
+                    owed[(q, mid)] = doc_msg_key(q, mid).hex()
+                else:
+                    owed.pop((q, mid), None)
             purged_gone.discard((q, mid))
             del_pending.discard((q, mid))
             del_flushed.discard((q, mid))
@@ -383,13 +396,15 @@ def judge_msg(c):
             del_pending.add((unhex(f[4]), int(f[1])))
             pending_d.add((unhex(f[4]), int(f[1])))
         elif t == "K" or out == "PANIC":
+            owed.clear()
+            owed_fly.clear()
             pending_a.clear()
             pending_d.clear()
             del_pending.clear()
             swapped_dels.clear()
             pending_w.clear()
             inflight_w.clear()
-        elif t == "T":
+        elif t in ("T", "X"):
             # snapshot: adds cancelled by a del of the same key are 'settled' - they may be relayed without a Set
             settled_ok |= {doc_msg_key(*o).hex() for o in pending_a & pending_d}
             pending_a.clear()
@@ -417,8 +432,27 @@ def judge_msg(c):
                 if q2 == q:
                     purged_after.add((q2, mid))
                     purged_gone.add((q2, mid))
-                    if (q2, mid) in pending_w or (q2, mid) in inflight_w:
-                        f41.add((q2, mid))
+            # the queue's pending adds are cancelled by a del of the same key (they will be confirmed as settled, never
+            # written); its pending updates are dropped
+            for o in [o for o in pending_a if o[0] == q]:
+                pending_d.add(o)
+            for o in [o for o in pending_w if o[0] == q]:
+                pending_w.discard(o)
+        # confirmed: every add with a confirm tag that a COMPLETED persist took in its snapshot is relayed by that persist
+        # (written, or settled because a del / purge cancelled it)
+        if t == "S":
+            owed_fly = dict(owed)
+            owed.clear()
+        if (t in ("T", "X") or (t == "C" and owed_fly)) and out != "PANIC":
+            due = dict(owed) if t in ("T", "X") else owed_fly
+            got = {a[1][0] for a in atoms if a[0] == 3}
+            for o, kh in due.items():
+                if kh not in got:
+                    fails.append(dict(pos=i, clause="confirmed", what="%s completed but did not relay the add of queue=%r id=%d taken in its snapshot (the publisher is never confirmed)" % (op, o[0], o[1]), triggers=[]))
+            if t in ("T", "X"):
+                owed.clear()
+            else:
+                owed_fly = {}
         # batches and relays
         for a in atoms:
             if a[0] == 1:
@@ -471,7 +505,7 @@ def judge_msg(c):
             for mid, data in got:
                 if (q, mid) in purged_gone and not bunt:
                     fails.append(dict(pos=i, clause="purged", what="%s returns id=%d which was purged from %r and not added since" % (op, mid, q),
-                                      triggers=(["F41-purge-in-flush-window"] if (q, mid) in f41 else []) + trig(q)))
+                                      triggers=trig(q)))
                 if data not in written.get((q, mid), ()):
                     fails.append(dict(pos=i, clause="phantom", what="%s returns id=%d data=%d which was never Added to %r" % (op, mid, data, q), triggers=trig(q)))
     return fails
@@ -508,7 +542,7 @@ def judge_isolation(c):
             snap_before = {"dump": cur["dump"], "pend": cur["pend"], "F": dict(cur["F"])}
             pending_check = (i, op, None if t == "K" else unhex(f[4] if t != "P" else f[1]), snap_before)
             cur = {"dump": None, "pend": None, "F": {}}
-        elif t in ("T", "S", "B", "C"):
+        elif t in ("T", "S", "B", "C", "X"):
             if pending_check is not None:
                 fails += compare_iso(pending_check, cur, names, own)
             pending_check = None
@@ -558,14 +592,14 @@ def msg_ops_wellformed(ops):
             if t == "S":
                 state = 1
         elif state == 1:
-            if t in ("S", "T", "C"):
+            if t in ("S", "T", "C", "X"):
                 return False
             if t == "B":
                 state = 2
             elif t == "K":
                 state = 0
         else:
-            if t in ("S", "T", "B"):
+            if t in ("S", "T", "B", "X"):
                 return False
             if t in ("C", "K"):
                 state = 0
